@@ -2178,6 +2178,26 @@ mod sched {
                     let ok = self.until(|r| r.done[c].is_some() || ctl().parked(Party::Caller(c)).map(|x| x.0) == Some("client.before_write"));
                     if !ok { return Err(format!("S{c}: neither parked before the write nor returned")); }
                 }
+                "V" => {
+                    // V<c>i<id>: `forward_message` with the caller-chosen id (AsyncClient)
+                    let (c, id) = rest.split_once('i').ok_or("bad V")?;
+                    let c: usize = c.parse().map_err(|_| "bad V")?;
+                    let id: u64 = id.parse().map_err(|_| "bad V")?;
+                    self.s.fwd(self.h, c, id, None);
+                    let ok = self.until(|r| r.done[c].is_some() || ctl().parked(Party::Caller(c)).map(|x| x.0) == Some("client.before_write"));
+                    if !ok { return Err(format!("V{c}: neither parked before the write nor returned")); }
+                }
+                "K" => {
+                    // K<c>: the call's future is dropped (task aborted)
+                    let c: usize = rest.parse().map_err(|_| "bad K")?;
+                    if self.done[c].is_none() {
+                        let gone = self.s.abort(self.h, c);
+                        self.pump();
+                        if self.done[c].is_none() {
+                            self.done[c] = Some(if gone { "K".into() } else { "?".into() });
+                        }
+                    }
+                }
                 "W" => {
                     let c: usize = rest.parse().map_err(|_| "bad W")?;
                     if self.done[c].is_some() { return Ok(()); }
@@ -2304,7 +2324,7 @@ mod sched {
         }
         // everything else runs freely now; every started call must return
         ctl().free_run(true);
-        let started: Vec<usize> = actions.iter().filter(|a| a.starts_with('S')).filter_map(|a| a[1..].trim_end_matches('t').parse().ok()).collect();
+        let started: Vec<usize> = actions.iter().filter(|a| a.starts_with('S') || a.starts_with('V')).filter_map(|a| a[1..].split('i').next().unwrap().trim_end_matches('t').parse().ok()).collect();
         let all = run.until(|r| started.iter().all(|c| r.done[*c].is_some()));
         if let Some(e) = &stuck {
             out.oracle_fail(&format!("sched.{}.stuck", kname), &format!("forced schedule could not proceed: {}; probe trace: {}", e, ctl().trace()), &ops);
